@@ -63,21 +63,25 @@ for label, store in (("new", lambda p, v: ffi.new(T + "*", v)), ("item", None), 
         got = int(p[0]) if acc else None
     elif label == "item":
         p = ffi.new(T + "[1]")
+        p[0] = 1
         try:
             p[0] = V; acc = True
         except OverflowError:
             acc = False
         got = int(p[0])
-        if not acc and got != 0:
-            bad.append("item: rejected store changed memory to %%r" %% got)
+        if not acc and got != 1:
+            bad.append("item: rejected store of %%r changed the target from 1 to %%r" %% (V, got))
     else:
         ffi2 = cffi.FFI(); ffi2.cdef("struct s { %%s f; };" %% T)
         p = ffi2.new("struct s *")
+        p.f = 1
         try:
             p.f = V; acc = True
         except OverflowError:
             acc = False
         got = int(p.f)
+        if not acc and got != 1:
+            bad.append("field: rejected store of %%r changed the target from 1 to %%r" %% (V, got))
     if acc != (lo <= V <= hi):
         bad.append("%%s: store of %%r %%s, range is [%%r, %%r]" %% (label, V, "accepted" if acc else "rejected", lo, hi))
     elif acc and got != V:
